@@ -569,6 +569,15 @@ func ktStr(t *idtab) string {
 	return strings.Join(t.kt, ",")
 }
 
+// hexList0: like hexList, but the list is never empty and "" is written as "-"
+func hexList0(xs []string) string {
+	o := make([]string, len(xs))
+	for i, x := range xs {
+		o[i] = hx.Hex([]byte(x))
+	}
+	return strings.Join(o, ",")
+}
+
 func hexList(xs []string) string {
 	if len(xs) == 0 {
 		return "-"
@@ -719,6 +728,107 @@ func gen(g *hx.Gen) {
 			t.scanFile(file)
 			g.Stat("skf.ssh-keygen-witness")
 			g.Emit("skf file=%s kt=%s host=%s port=%s", hx.Hex(file), ktStr(t), hx.Hex([]byte(q.h)), q.p)
+		}
+	}
+	// wildcardMatch, small-scope exhaustive: every pattern over {a,b,*,?} of length 1..5 that contains a
+	// wildcard against every host over {a,b} of length 0..7 (one file line per pattern, the answer for a host
+	// is the set of matching lines), plus self-overlapping / domain-shaped patterns with pumped hosts —
+	// the inputs on which greedy or non-rewinding matchers differ from the recursive one.
+	{
+		wk := w.keys[0].pub
+		ty, b := keyFields(wk)
+		emitWM := func(pats, hosts []string) {
+			var sb strings.Builder
+			for _, p := range pats {
+				sb.WriteString(p + " " + ty + " " + b + "\n")
+			}
+			t := newIDs()
+			t.addBlob(wk.Marshal())
+			g.StatN("wm.pairs", len(pats)*len(hosts))
+			g.Emit("wm file=%s kt=%s hosts=%s", hx.Hex([]byte(sb.String())), ktStr(t), hexList0(hosts))
+		}
+		var pats, hosts []string
+		var rec func(alpha string, n int, cur string, out *[]string)
+		rec = func(alpha string, n int, cur string, out *[]string) {
+			if len(cur) > 0 || n == 0 {
+				*out = append(*out, cur)
+			}
+			if len(cur) == n {
+				return
+			}
+			for i := 0; i < len(alpha); i++ {
+				rec(alpha, n, cur+string(alpha[i]), out)
+			}
+		}
+		var allP []string
+		rec("ab*?", 5, "", &allP)
+		for _, p := range allP {
+			if strings.ContainsAny(p, "*?") {
+				pats = append(pats, p)
+			}
+		}
+		hosts = append(hosts, "")
+		rec("ab", 7, "", &hosts)
+		for i := 0; i < len(pats); i += 120 {
+			j := i + 120
+			if j > len(pats) {
+				j = len(pats)
+			}
+			emitWM(pats[i:j], hosts)
+		}
+		// self-overlapping and domain-shaped patterns; hosts pumped from the literal segments
+		shaped := []string{"*.co.com", "*.example.*", "node*11", "*aa", "*aab", "a*ab*ab", "*.a.a", "a*a.a*", "*ab.ab", "*.co.*.co", "n*1*1", "*abab", "ab*ab*ab", "*a?a", "?*aa?", "*.co.uk", "shop*.co.com", "*-1-1", "*aXa", "*..a"}
+		for k := 0; k < 60; k++ {
+			n := r.Range(2, 8)
+			bb := make([]byte, n)
+			for i := range bb {
+				bb[i] = "ab.ab.*?*"[r.Intn(9)]
+			}
+			if !bytes.ContainsAny(bb, "*") {
+				bb[r.Intn(n)] = '*'
+			}
+			shaped = append(shaped, string(bb))
+		}
+		var ph []string
+		seen := map[string]bool{}
+		addH := func(h string) {
+			if len(h) <= 24 && !seen[h] {
+				seen[h] = true
+				ph = append(ph, h)
+			}
+		}
+		for _, p := range shaped {
+			segs := strings.FieldsFunc(p, func(c rune) bool { return c == '*' })
+			for v := 0; v < 6; v++ {
+				var sb strings.Builder
+				if strings.HasPrefix(p, "*") && r.Bool() {
+					sb.WriteString(r.PickStr("x", "shop", "a", "ab", ""))
+				}
+				for _, sg := range segs {
+					sg = strings.ReplaceAll(sg, "?", r.PickStr("a", "b", "."))
+					for rep := r.Intn(3); rep > 0; rep-- { // false starts: a prefix of the segment, or the whole segment
+						sb.WriteString(sg[:r.Range(1, len(sg))])
+					}
+					sb.WriteString(sg)
+					if r.Chance(1, 3) {
+						sb.WriteString(r.PickStr("a", "b", ".", "1"))
+					}
+				}
+				addH(sb.String())
+			}
+		}
+		addH("shop.co.co.com")
+		addH("node111")
+		addH("aaa")
+		addH("aaab")
+		addH("aabab")
+		addH("aababab")
+		for i := 0; i < len(shaped); i += 40 {
+			j := i + 40
+			if j > len(shaped) {
+				j = len(shaped)
+			}
+			emitWM(shaped[i:j], ph)
 		}
 	}
 	// Line / HashHostname round trips and outputs
@@ -962,6 +1072,21 @@ func execKeygen(o hx.Op) string {
 	return "lines:" + goLines + " keygen:" + hx.JoinInts(kg)
 }
 
+// execWM: for every host, the lines whose pattern matches it (KeyError.Want for a key that is not in the file)
+func execWM(o hx.Op) string {
+	cb, err := load(o.Hex("file"))
+	if err != nil {
+		return "parse-err:" + strconv.Itoa(firstBadLine(o.Hex("file")))
+	}
+	probe, _ := ssh.NewPublicKey(ed25519.NewKeyFromSeed(bytes.Repeat([]byte{0x5c}, 32)).Public())
+	var out []string
+	for _, h := range strings.Split(o.Str("hosts"), ",") {
+		v := verdict(cb(string(hx.UnHex(h))+":22", strAddr("10.9.9.9:22"), probe))
+		out = append(out, strings.TrimPrefix(v, "keyerr:"))
+	}
+	return strings.Join(out, "|")
+}
+
 func strList(o hx.Op, k string) []string {
 	var out []string
 	for _, h := range o.List(k) {
@@ -999,6 +1124,8 @@ func exec(line string) string {
 		return runQueries(o, o.Hex("file"))
 	case "skf":
 		return execKeygen(o)
+	case "wm":
+		return execWM(o)
 	case "lq":
 		k, err := ssh.ParsePublicKey(o.Hex("blob"))
 		if err != nil {
